@@ -238,7 +238,28 @@ def gen_stl(rng):
   return gsi + b"".join(ttis)
 
 
-GENS = {"ttml": gen_ttml, "scc": gen_scc, "stl": gen_stl, "srt": gen_srt, "vtt": gen_vtt}
+ORDER_SENSITIVE_TTML = ("<?xml version=\"1.0\" encoding=\"UTF-8\"?>\n<tt xml:lang=\"en\" xmlns=\"http://www.w3.org/ns/ttml\" "
+  "xmlns:tts=\"http://www.w3.org/ns/ttml#styling\">\n<head><styling>"
+  "<style xml:id=\"s1\" tts:color=\"red\" tts:fontStyle=\"italic\"/><style xml:id=\"s2\" tts:color=\"lime\" tts:fontWeight=\"bold\"/>"
+  "<style xml:id=\"s4\" tts:color=\"blue\" tts:textDecoration=\"underline\"/>"
+  "<style xml:id=\"s3\" style=\"s2 s4 s1\"/><style xml:id=\"s5\" style=\"s1 s2 s4 s2\"/></styling>"
+  "<layout><region xml:id=\"r1\" tts:extent=\"80% 20%\" tts:origin=\"10% 70%\"><style style=\"s4 s2\"/></region>"
+  "<region xml:id=\"r2\" tts:extent=\"80% 20%\" tts:origin=\"10% 10%\" style=\"s1 s4\"/></layout></head>\n"
+  "<body><div><p region=\"r1\" begin=\"0s\" end=\"2s\" style=\"s3\">chained <span style=\"s5\">references</span></p>"
+  "<p region=\"r2\" begin=\"2s\" end=\"4s\" style=\"s2 s1\">later <span style=\"s4 s3 s4\">wins</span></p>"
+  "<p region=\"r1\" begin=\"4s\" end=\"5s\">inherited from the region</p></div></body></tt>\n").encode("utf-8")
+
+
+def gen_ttml_any(rng):
+  """Half of the TTML inputs come from the schema generator (chained / repeated / conflicting style references, initial values, set,
+  ruby, every style attribute): conversions of such documents exercise every order-sensitive step of the reader."""
+  if rng.random() < 0.5:
+    from vt.gen import ttml as gt
+    return gt.generate(rng, p_loop=0.0)[0].encode("utf-8") if "p_loop" in getattr(gt.Gen.__init__, "__code__").co_varnames else gt.generate(rng)[0].encode("utf-8")
+  return gen_ttml(rng)
+
+
+GENS = {"ttml": gen_ttml_any, "scc": gen_scc, "stl": gen_stl, "srt": gen_srt, "vtt": gen_vtt}
 
 
 def load_inputs(ctx_or_seed, tier, n_gen=None):
@@ -257,6 +278,9 @@ def load_inputs(ctx_or_seed, tier, n_gen=None):
     for k in range(n_gen + (2 if fmt == "srt" else 0)):
       rng = random.Random(core.mix_seed("C19", "gen", seed, fmt, k))
       lst.append(("gen:%s:%d" % (fmt, k), GENS[fmt](rng)))
+    if fmt == "ttml":
+      # several references per style attribute, with conflicting values: the result depends on the order in which they are merged
+      lst += [("fixed:order-sensitive-styles", ORDER_SENSITIVE_TTML)] * 3
     out[fmt] = lst
   return out
 
